@@ -212,15 +212,26 @@ class EchoSession(asyncssh.SSHServerSession):
 def run_victim_server(strict: bool, scenario: str,
                       inject: Optional[Tuple[int, bytes]],
                       inject2: Optional[Tuple[int, bytes]] = None,
-                      rekey_at: Optional[str] = None):
+                      rekey_at: Optional[str] = None,
+                      guess: Optional[bytes] = None):
     """Returns (effect log, refpeer, link-level info).  rekey_at: the peer
-    starts a (legal) second key exchange at that point of the dialogue"""
+    starts a (legal) second key exchange at that point of the dialogue.
+    guess: the peer's KEXINIT announces first_kex_packet_follows with a
+    wrong guess (a method the victim does not offer) and `guess` is the
+    packet it sends as the guessed one (b'': a proper KEXDH_INIT)"""
 
     log: List[Any] = []
     ref = RefPeer('client', strict=strict)
+    sopts: Dict[str, Any] = {'server_factory': make_server(log, None),
+                             'encoding': None}
+
+    if guess is not None:
+        ref.guess = b'diffie-hellman-group14-sha256'
+        ref.guess_packet = guess or None
+        sopts['kex_algs'] = ['curve25519-sha256']
+
     conn = RefConn(ref)
-    link = RefLink(ref, {'server_factory': make_server(log, None),
-                         'encoding': None})
+    link = RefLink(ref, sopts)
     info: Dict[str, Any] = {'inj_seq': None}
     count = {'n': 0}
 
@@ -676,6 +687,57 @@ def reverse_grid(tier: str):
                                'type': t, 'shape': shape}
 
 
+def run_guess(case) -> CaseResult:
+    """RFC 4253 7: a peer may announce that the first packet of its guessed
+    key exchange method follows its KEXINIT; when the guess is wrong "the
+    next packet ... MUST be silently ignored".  That licence covers a key
+    exchange packet - any other message in that place is as out of phase
+    as anywhere else before NEWKEYS"""
+
+    t, strict = case['type'], case['strict']
+    base_log, base_info = run_victim_server(strict, 'ok', None, guess=b'')
+
+    if 'auth_completed' not in [e[0] for e in base_log]:
+        raise Violation('baseline', 'a wrongly guessed first key exchange '
+                        'packet was not ignored: %r' % base_log,
+                        'guess-baseline')
+
+    log, info = run_victim_server(strict, 'ok', None,
+                                  guess=shaped(t, case['shape']))
+    labels = ['guess', 'strict' if strict else 'non-strict',
+              'group:' + ('kex' if 30 <= t <= 49 else 'other')]
+    done = 'auth_completed' in [e[0] for e in log]
+
+    if 30 <= t <= 49:
+        if not done:
+            raise Violation('guess-not-ignored', 'type %d in the place of '
+                            'the guessed packet was not ignored: %r' %
+                            (t, log), 'guess-not-ignored:%d' % t)
+        labels.append('outcome:B')
+    else:
+        # (non-strict: IGNORE / DEBUG / UNIMPLEMENTED are harmless there,
+        # but the victim then takes the real first packet for the guess and
+        # the handshake cannot complete either)
+        if done or any(e[0] not in ('lost',) for e in strip_lost(log)[0]):
+            raise Violation(
+                'injected-message-took-effect', 'message type %d sent in '
+                'the place of a wrongly guessed first key exchange packet '
+                'was swallowed; the session went on: %r (strict=%s)' %
+                (t, log, strict), 'guess-swallowed:%d' % t)
+        labels.append('outcome:A')
+
+    return CaseResult(labels, True, [t, strict, case['shape']])
+
+
+def guess_cases(tier: str):
+    for strict in (True, False):
+        for t in TYPES:
+            if t in (20, 21):
+                continue    # (refpeer would switch its own keys on them)
+            for shape in ((0, 3) if tier == 'thorough' else (0,)):
+                yield {'type': t, 'strict': strict, 'shape': shape}
+
+
 def pairs_strategy(tier: str):
     one = st.fixed_dictionaries({'pos': pick(range(9)), 'type': pick(TYPES),
                                  'shape': pick(range(4))})
@@ -882,6 +944,10 @@ FAMILIES = [
            exhaustive=True,
            required={'all': ['victim:rclient', 'outcome:A', 'outcome:B',
                              'group:auth']}, case_timeout=120),
+    Family('guess', run_guess, enumerate=guess_cases, exhaustive=True,
+           required={'all': ['group:kex', 'group:other', 'strict',
+                             'non-strict', 'outcome:A', 'outcome:B']},
+           case_timeout=120),
     Family('blind', run_blind, enumerate=blind_cases, exhaustive=True,
            case_timeout=120),
     Family('pairs', run_grid, strategy=pairs_strategy,
